@@ -167,7 +167,7 @@ def main():
     na = [{"property_id": p, "reason": PENDING.get(p, "no check registered yet: machinery for this property is still being built (see DESIGN.md section 5 for the planned generated-input check)")} for p in ids if p not in CHECKS]
     m = {
         "version": 1,
-        "setup_cmd": "/venv/bin/python -m pip install --no-index --find-links /opt/veriftools/wheels hypothesis >/dev/null 2>&1; /venv/bin/python -m pip install --no-index --find-links /opt/veriftools/wheels --target .deps atheris >/dev/null 2>&1 || echo 'atheris not installed: thorough C16 runs without the coverage-guided campaign'; /venv/bin/python -c 'import hypothesis, ffcx, basix, ufl, cffi, pycparser' && /venv/bin/python -m compileall -q vf",
+        "setup_cmd": "/venv/bin/python -m pip install --no-index --find-links /opt/veriftools/wheels hypothesis >/dev/null 2>&1; /venv/bin/python -m pip install --no-index --find-links /opt/veriftools/wheels --target .deps atheris >/dev/null 2>&1 || echo 'atheris not installed: thorough C16 runs without the coverage-guided campaign'; /venv/bin/python -m pip install --no-index --no-deps --find-links /opt/veriftools/wheels --target .deps scipy >/dev/null 2>&1 || echo 'scipy not installed: C18 excludes Bessel forms from the numba comparison'; /venv/bin/python -c 'import hypothesis, ffcx, basix, ufl, cffi, pycparser' && /venv/bin/python -m compileall -q vf",
         "hooks": {
             "guard": "FFCX_VERIF",
             "enable": "no source hooks: all instrumentation is applied harness-side (monkeypatching in child processes); checks import ffcx from the editable install of /repo",
